@@ -129,11 +129,10 @@ GENERATORS = {"Consts.lean": gen_consts}
 
 def main():
     # other generators register themselves from sibling modules
-    try:
-        import extract_layouts  # noqa: F401
-        GENERATORS.update(extract_layouts.GENERATORS)
-    except ImportError:
-        pass
+    import extract_layouts
+    import extract_ws
+    GENERATORS.update(extract_layouts.GENERATORS)
+    GENERATORS.update(extract_ws.GENERATORS)
     failed = []
     for name, fn in GENERATORS.items():
         try:
